@@ -95,6 +95,7 @@ pub struct Mutex<T> {
 pub struct MutexGuard<'a, T> {
     real: std::sync::MutexGuard<'a, T>,
     _ghost: Guard,
+    mutex: &'a Mutex<T>,
 }
 
 impl<T> Mutex<T> {
@@ -111,6 +112,7 @@ impl<T> Mutex<T> {
             Ok(real) => Ok(MutexGuard {
                 real,
                 _ghost: ghost,
+                mutex: self,
             }),
             Err(std::sync::TryLockError::Poisoned(_)) => Err(LockError("poisoned")),
             Err(std::sync::TryLockError::WouldBlock) => {
@@ -130,6 +132,67 @@ impl<T> Deref for MutexGuard<'_, T> {
 impl<T> DerefMut for MutexGuard<'_, T> {
     fn deref_mut(&mut self) -> &mut T {
         &mut self.real
+    }
+}
+
+/// `std::sync::Condvar` under the simulator: waiting registers a ticket, releases the mutex,
+/// blocks inside the simulator until the ticket is notified, and takes the mutex again.
+#[derive(Debug, Default)]
+pub struct Condvar {
+    _private: (),
+}
+
+impl Condvar {
+    pub const fn new() -> Self {
+        Self { _private: () }
+    }
+
+    fn id(&self) -> usize {
+        self as *const Self as usize
+    }
+
+    pub fn wait<'a, T>(&self, guard: MutexGuard<'a, T>) -> Result<MutexGuard<'a, T>, LockError> {
+        let mutex = guard.mutex;
+        let ticket = hooks().cond_prepare(self.id());
+        drop(guard);
+        hooks().cond_block(self.id(), ticket);
+        mutex.lock()
+    }
+
+    pub fn wait_while<'a, T, F>(
+        &self,
+        mut guard: MutexGuard<'a, T>,
+        mut condition: F,
+    ) -> Result<MutexGuard<'a, T>, LockError>
+    where
+        F: FnMut(&mut T) -> bool,
+    {
+        while condition(&mut *guard) {
+            guard = self.wait(guard)?;
+        }
+        Ok(guard)
+    }
+
+    pub fn notify_one(&self) {
+        hooks().cond_notify(self.id(), false);
+    }
+
+    pub fn notify_all(&self) {
+        hooks().cond_notify(self.id(), true);
+    }
+}
+
+/// Stands in for the name `std` inside the lsp crate's modules (`use ... as std`), so that
+/// `std::sync::{Mutex, RwLock, Condvar}` resolve to the shims above however they are spelled
+/// (imported or by full path); everything else is the real `std`.
+pub mod std_shim {
+    pub use ::std::*;
+
+    pub mod sync {
+        pub use crate::verif_hooks::{
+            Condvar, Mutex, MutexGuard, RwLock, RwLockReadGuard, RwLockWriteGuard,
+        };
+        pub use ::std::sync::*;
     }
 }
 
